@@ -17,6 +17,7 @@ ap.add_argument("--tier", default="quick")
 ap.add_argument("--seed", default="0")
 ap.add_argument("--keep", action="store_true")
 a = ap.parse_args()
+VERIF = os.path.dirname(os.path.dirname(os.path.abspath(__file__)))     # the tree this script lives in (may be a snapshot)
 d = "/var/tmp/mut-%d" % os.getpid()
 repo = os.path.join(d, "repo")
 os.makedirs(d)
@@ -35,7 +36,7 @@ try:
                VERIF_REPLAY_DIR=os.path.join(d, "replay"))
     rcs = {}
     for c in a.checks.split(","):
-        p = subprocess.run(["/verif/check", c, "--tier", a.tier], env=env, cwd="/verif", capture_output=True, text=True)
+        p = subprocess.run([os.path.join(VERIF, "check"), c, "--tier", a.tier], env=env, cwd=VERIF, capture_output=True, text=True)
         lines = [ln for ln in p.stdout.splitlines() if ln.startswith(("VIOLATION", "KNOWN", "MACHINERY", c + " "))]
         detail = [ln for ln in p.stdout.splitlines() if ln.startswith("  ")][:3]
         print("== %s rc=%d" % (c, p.returncode))
